@@ -52,6 +52,11 @@ type Opts struct {
 	// EmptyTokens: an empty reference token ("/a/", "/") is an ordinary token naming the member
 	// called "" (RFC 6901). C01 puts such pointers outside its stated domain; C13 does not.
 	EmptyTokens bool
+	// HugeIndices: an index token of more than nine digits that addresses an existing array is
+	// simply out of range when an element is looked up (remove, replace, test, from, interior
+	// tokens); without it such tokens are outside the comparing domain. Insert positions (add)
+	// stay outside: under EnsurePath they would ask for that much padding.
+	HugeIndices bool
 	// ScalarBlocksEnsure: under EnsurePath a string, number or boolean on the path is not out of
 	// the domain (as it is for C14) but simply in the way: the add is a plain add whose parent
 	// cannot be reached. Used by C08, which asks how that failure is reported.
@@ -90,6 +95,8 @@ type Evaluator struct {
 	Created []string // pointers of containers created by EnsurePath (diagnostic)
 	Soft    string
 	n       int
+
+	inLookup bool // index() is resolving an existing element, not an insert position
 }
 
 func New(doc *jr.Value, o Opts) *Evaluator {
@@ -156,7 +163,9 @@ func (e *Evaluator) index(tok string) (idx int, neg bool, ok bool) {
 		return 0, false, false
 	}
 	if len(s) > 9 {
-		e.setOOD("index beyond 10^9")
+		if !(e.O.HugeIndices && e.inLookup) {
+			e.setOOD("index beyond 10^9")
+		}
 		return 1 << 40, neg, true
 	}
 	n := 0
@@ -186,7 +195,9 @@ func looksNumericNotCanonical(t string) bool {
 
 // elemIndex resolves tok to an existing element position of array a.
 func (e *Evaluator) elemIndex(a *jr.Value, tok string) (int, Cause) {
+	e.inLookup = true
 	n, neg, ok := e.index(tok)
+	e.inLookup = false
 	if !ok {
 		return 0, BadToken
 	}
@@ -465,7 +476,9 @@ func (e *Evaluator) remove(path string) (Cause, bool) {
 		if c == BadToken {
 			e.setOOD("remove: non-numeric token on array")
 		}
+		e.inLookup = true
 		_, neg, _ := e.index(last)
+		e.inLookup = false
 		if neg && !e.O.NegIdx {
 			return c, false
 		}
@@ -531,7 +544,10 @@ func (e *Evaluator) Step(op Op) Cause {
 		var missing bool
 		c, missing = e.remove(op.Path)
 		if c != OK && missing && e.O.AllowMissing {
-			if _, neg, _ := e.index(lastTok(op.Path)); neg && !e.O.NegIdx {
+			e.inLookup = true
+			_, neg, _ := e.index(lastTok(op.Path))
+			e.inLookup = false
+			if neg && !e.O.NegIdx {
 				e.setOOD("allow-missing with negative index while disabled")
 			}
 			e.Skipped = append(e.Skipped, i)
